@@ -90,3 +90,56 @@ func VerifC08Race() {
 	zzverif.Assert(err != nil, "after the compaction a read below it is refused")
 	zzverif.Cover("done")
 }
+
+// VerifC08TwoCompactions: two compaction requests at symbolic revisions run at the same time (the
+// periodic loop and a client request: nothing serialises them), every interleaving of their store
+// operations within the delay bound. Afterwards the record stands at or above every accepted
+// request's revision, and a range read below the highest accepted revision is refused.
+func VerifC08TwoCompactions() {
+	w := vNewWorld(1)
+	w.vScenario(1) // one key with two live versions
+	w.vWriteSeq(1)
+	zzverif.WaitIdle()
+	var revs [2]uint64
+	var oks [2]bool
+	var effs [2]uint64
+	for i := range revs {
+		revs[i] = zzverif.U64("c" + string(rune('0'+i)))
+		zzverif.Assume(zzverif.And(revs[i] > w.base, revs[i] <= w.dealt))
+	}
+	zzverif.Assume(revs[0] < revs[1])
+	w.s.Yield = zzverif.YieldAt
+	done := make(chan struct{}, 2)
+	zzverif.ExploreSchedules(zzverif.Param("preempt", 2))
+	for i := 0; i < 2; i++ {
+		i := i
+		zzverif.Go("compactor"+string(rune('0'+i)), func() {
+			resp, err := w.b.Compact(vCtx(), revs[i])
+			if err == nil {
+				oks[i], effs[i] = true, resp.Header.Revision
+			}
+			done <- struct{}{}
+		})
+	}
+	<-done
+	<-done
+	zzverif.StopExploring()
+	w.s.Yield = nil
+	zzverif.WaitIdle()
+	var floor uint64
+	for i := range revs {
+		if oks[i] && effs[i] > floor {
+			floor = effs[i]
+		}
+	}
+	if oks[0] && oks[1] {
+		zzverif.Cover("both-accepted")
+	}
+	zzverif.Assert(w.record() >= floor, "concurrent compaction requests leave the record at or above every accepted revision")
+	r := zzverif.U64("R")
+	zzverif.Assume(zzverif.And(r > w.base, r < floor))
+	rg := vRanges[0]
+	_, err := w.b.List(vCtx(), &proto.RangeRequest{Key: rg[0], End: rg[1], Revision: r})
+	zzverif.Assert(err != nil, "a range read below an accepted compaction is refused")
+	zzverif.Cover("done")
+}
